@@ -11,7 +11,7 @@ package client
 //vx:entry vxC04History reach=add-ok,add-clash,update-ok,update-clash,update-missing,remove-ok,remove-missing,probe-owner,probe-none,name-found,name-missing
 //vx:stub (*github.com/AdguardTeam/AdGuardHome/internal/client.upstreamManager).customUpstreamConfig vxC04CustomConf
 //vx:stub slices.overlaps vxC04Overlaps
-//vx:note Lookup entry: registry of 0..3 clients built by the real Add (assumed accepted), each with one ClientID (1 byte; thorough 1..2), one IP, one CIDR (client 0 two in thorough) and one MAC (6, 8 and 20 bytes), all bytes and prefix lengths symbolic, so equal, overlapping and nested CIDRs arise; IPv4 (quick), plus in quick a small IPv6 registry (<=2 clients with zoned/unzoned IP and CIDR, zoned/unzoned request), thorough: all-IPv6 and mixed families too; request = (ClientID absent or symbolic, symbolic address, DHCP answer chosen when asked: none or a symbolic MAC of 6/8/20 bytes). Reference = decision table ClientID > exact IP > containing CIDR of maximal length (ties between equally long prefixes left open) > leased MAC; identifier equality over the raw bytes, CIDR containment by netip.Prefix.Contains on the zone-less address (library trusted). CustomUpstreamConfig is checked against the same table without the DHCP stage (the implementation does not consult DHCP there; statement leaves it open).
+//vx:note Lookup entry: registry of 0..3 clients built by the real Add (assumed accepted), each with one ClientID (1 byte; thorough 1..2), one IP, one CIDR (client 0 two in thorough) and one MAC (6, 8 and 20 bytes), all bytes and prefix lengths symbolic, so equal, overlapping and nested CIDRs arise; IPv4 (quick), plus in quick a small IPv6 registry (<=2 clients with zoned/unzoned IP and CIDR, zoned/unzoned request), thorough: all-IPv6 and mixed families too; request = (ClientID absent or symbolic, symbolic address, DHCP answer chosen when asked: none or a symbolic MAC of 6/8/20 bytes). Reference = decision table ClientID > exact IP > containing CIDR of maximal length (ties between equally long prefixes left open) > leased MAC; identifier equality and CIDR containment (first <length> bits equal, zone ignored) computed over the raw bytes. CustomUpstreamConfig is checked against the same table without the DHCP stage (the implementation does not consult DHCP there; statement leaves it open).
 //vx:note Settings entry: one client reachable by one identifier kind, all per-client and global switches symbolic: own switches/safe-search/blocked services applied exactly when UseOwnSettings / UseOwnBlockedServices, everything else (protection switch, address, service rules) untouched.
 //vx:note History entry: 3 operations (thorough 4) forked over Add / Update(target, new version) / RemoveByName(target) on clients with all four identifier kinds or a partial set ({ClientID,CIDR} or {IP,MAC}; thorough also each single kind) so that updates drop and gain identifiers. One identifier kind (or the names) is "in focus" per run: its values are symbolic in every client (equal/overlapping/nested in all ways, incl. an update keeping its own identifiers), the other kinds are fixed and distinct (nested CIDRs 10/8 > 10.1/16 > 10.1.1/24 > 10.1.1.16/28 with the IPs inside); thorough adds a run with every kind and the names symbolic. Reference registry = slice of clients; operation accepted iff target exists and no OTHER client shares the name or an identifier. After the history: index sizes equal the reference (no stale entries), every fixed identifier ever mentioned (also of rejected, replaced and removed clients) is looked up through ApplyClientFiltering (ClientID / address / DHCP MAC) and must resolve to the reference owner or nobody, and an arbitrary request (or FindByName with an arbitrary name, whose result must carry the current identifiers) probes the kind in focus. Quick: the history ends at the first rejected operation (the checks follow immediately); thorough: goes on after rejections.
 //vx:note stubs: (*upstreamManager).customUpstreamConfig records the UID instead of building dnsproxy upstream objects; slices.overlaps (unsafe pointer arithmetic inside slices.Insert) returns false (inserted key never aliases the key list); DHCP is a harness fake whose MACByIP answer is arbitrary per request (models lease changes) and which checks it is asked about the request's source address.
@@ -96,7 +96,6 @@ func vxC04Storage() *Storage {
 // vxC04A is an address with its reference representation next to the netip one.
 type vxC04A struct {
 	a      netip.Addr
-	nz     netip.Addr // a without zone
 	v6     bool
 	hi, lo uint64
 	zone   string
@@ -118,14 +117,12 @@ func vxC04AddrOf(raw []byte, zone string) (r vxC04A) {
 		var b [4]byte
 		copy(b[:], raw)
 		r.a = netip.AddrFrom4(b)
-		r.nz = r.a
 		r.lo = uint64(b[0])<<24 | uint64(b[1])<<16 | uint64(b[2])<<8 | uint64(b[3])
 		return r
 	}
 	var b [16]byte
 	copy(b[:], raw)
 	r.a = netip.AddrFrom16(b)
-	r.nz = r.a
 	if zone != "" {
 		r.a = r.a.WithZone(zone)
 	}
@@ -170,12 +167,22 @@ func (x vxC04P) same(y vxC04P) bool {
 	return vx.And(x.base.same(y.base), x.bits == y.bits)
 }
 
-// contains: the CIDR covers the address, whatever its zone.  The bit
-// arithmetic is netip's own (trusted library, applied to the prefix and the
-// zone-less address as the statement says); what is checked is which prefixes
-// are consulted, with which address, and which one wins.
+// contains: the first bits bits of ip equal those of the prefix base; the zone
+// of ip does not matter; families must agree.
 func (x vxC04P) contains(ip vxC04A) bool {
-	return x.p.Contains(ip.nz)
+	if !ip.a.IsValid() || x.base.v6 != ip.v6 {
+		return false
+	}
+	if !x.base.v6 {
+		d := uint32(x.base.lo ^ ip.lo)
+		// keep the top bits bits: d >> (32-bits) is zero; bits == 0 keeps nothing
+		return (uint64(d) >> uint(32-x.bits)) == 0
+	}
+	dh, dl := x.base.hi^ip.hi, x.base.lo^ip.lo
+	if x.bits <= 64 {
+		return vx.Or(x.bits == 0, (dh>>uint(64-x.bits)) == 0)
+	}
+	return vx.And(dh == 0, (dl>>uint(128-x.bits)) == 0)
 }
 
 // vxC04C is a reference client.
@@ -384,18 +391,18 @@ func vxC04Lookup() {
 	if vx.Thorough() {
 		nfam = 3
 	}
-	fam := 0 + 0*vx.Choice("fam", 1) //TMP nfam
+	fam := 1 + 0*vx.Choice("fam", 1) //TMP nfam
 	small := fam == 1 && !vx.Thorough()
 	nmax := 3
 	if small {
 		nmax = 2
 	}
-	n := 3 + 0*vx.Choice("n", 1) + 0*nmax //TMPN
+	n := vx.Choice("n", nmax+1)
 	var regs []*vxC04C
 	for k := 0; k < n; k++ {
 		v6 := fam == 1 || (fam == 2 && k%2 == 1)
 		mask := 1 | 2 | 4 | 8
-		if k == 0 && vx.Thorough() {
+		if k == 0 && vx.Thorough() && n <= 2 {
 			mask |= 16
 		}
 		if small {
